@@ -165,13 +165,18 @@ def combos(tier):
     return out
 
 
-def check(tier):
-    rep = Report("C03", tier, "other")
-    declare(rep)
+def run(rep, tier):
     hs = [make(*c) for c in combos(tier)]
     harness.build(hs, "c03", per_tu=6)
     for h in hs:
         check_one(rep, h)
+    return hs
+
+
+def check(tier):
+    rep = Report("C03", tier, "other")
+    declare(rep)
+    hs = run(rep, tier)
     rep.assumptions = ["ring identity, i.e. 'up to floating-point rounding' in the property's words; the rounding error bound itself is not decided",
                        "lattice-point exactness and the range clause are consequences of the interpolant form for finite data under IEEE arithmetic (stated, not machine-checked)",
                        "coordinates in the stated domain 0 <= x_k < extent_k - 1 (fp->int conversion defined)"]
